@@ -326,12 +326,24 @@ package parse
 //@   modifies l.recv, l.done
 //@   ensures l.done && l.recv >= old(l.recv) && l.recv >= ntoks(l)
 
-//@ trusted lexExpr -- starts the scanner goroutine (not modelled) and returns the fresh scanner
+// lex and lexExpr: the body is verified up to the go statement (the started
+// scanner goroutine is not modelled; its effect is the trusted clause).  The
+// scanner works on exactly the text and under exactly the name it was given:
+// token offsets, which parse errors and - through the node positions - render
+// errors turn into lines of the file text (SoyFileNode.Text, Registry.LineNumber),
+// are offsets into that very text.
+//@ func lexExpr
+//@   props C05 C18 C19
 //@   pure
-//@   ensures result != nil && fresh(result) && result.recv == 0 && !result.done && len(result.input) == len(input) && ntoks(result) >= 1
-//@ trusted lex -- starts the scanner goroutine (not modelled) and returns the fresh scanner
+//@   ensures[scans-the-given-text-under-the-given-name;C19] result != nil && fresh(result) && same(result.input, input) && same(result.name, name)
+//@   ensures len(result.input) == len(input)
+//@   trustedensures result.recv == 0 && !result.done && ntoks(result) >= 1
+//@ func lex
+//@   props C05 C18 C19
 //@   pure
-//@   ensures result != nil && fresh(result) && result.recv == 0 && !result.done && len(result.input) == len(input) && ntoks(result) >= 1
+//@   ensures[scans-the-given-text-under-the-given-name;C19] result != nil && fresh(result) && same(result.input, input) && same(result.name, name)
+//@   ensures len(result.input) == len(input)
+//@   trustedensures result.recv == 0 && !result.done && ntoks(result) >= 1
 
 //@ pred cursor(t *tree) = t.lex.recv - t.peekCount
 //@ pred rem(t *tree) = ite(cursor(t) >= ntoks(t.lex), 0, ntoks(t.lex) - cursor(t))
@@ -438,7 +450,7 @@ package parse
 //@   props C05 C18
 //@   requires treeOK(t) && t.aliases != nil
 //@   modifies *
-//@   preserves E!Int G!github.com/robfig/soy/*
+//@   preserves E!Int G!github.com/robfig/soy/* F!github.com/robfig/soy/parse.tree!name F!github.com/robfig/soy/parse.tree!text
 //@   ensures[step] stepOK(t)
 
 //@ func isBinaryOp
@@ -799,7 +811,9 @@ package parse
 //@   modifies *
 //@   ghost lx *lexer = nil
 //@   at call parse.lex#0 after set lx = res
+//@   at call parse.lex#0 assert[scanner-is-given-the-file-text-and-name;C19] same(arg0, name) && same(arg1, text)
 //@   ensures[scanner-finished;C18] lx != nil && lx.done
+//@   ensures[file-node-keeps-the-scanned-text-and-name;C19] isnil(err) ==> node != nil && same(node.Text, text) && same(node.Name, name)
 //@   panicensures[scanner-finished-on-panic;C18] lx == nil || lx.done
 
 //@ func Expr
